@@ -19,6 +19,9 @@ type miniEval struct {
 	env     map[string]int64
 	call    func(call *ast.CallExpr) (int64, bool)
 	hook    func(x ast.Expr) (int64, bool) // consulted first for every expression
+	tuple   func(call *ast.CallExpr) ([]int64, bool) // results of a multi-value call
+	rng     func(x ast.Expr) ([]int64, bool)         // elements of a non-constant range operand
+	maps    map[string]map[int64]bool                // sets / maps held in plain variables, by key
 	steps   int                            // loop iterations executed (bounded)
 	unknown string
 	effects []string // assignments to anything that is not a plain variable, in program order
@@ -119,6 +122,11 @@ func (e *miniEval) expr(x ast.Expr) int64 {
 		}
 		return e.fail("operator " + y.Op.String())
 	case *ast.CallExpr:
+		if core.ExprStr(y.Fun) == "len" && len(y.Args) == 1 {
+			if m, ok := e.maps[core.ExprStr(y.Args[0])]; ok {
+				return int64(len(m))
+			}
+		}
 		// a conversion between integer types
 		if tv, ok := e.pk.TypesInfo.Types[y.Fun]; ok && tv.IsType() && len(y.Args) == 1 {
 			if b, isB := tv.Type.Underlying().(*types.Basic); isB && b.Info()&types.IsInteger != 0 {
@@ -136,6 +144,12 @@ func (e *miniEval) expr(x ast.Expr) int64 {
 }
 
 func (e *miniEval) assign(lhs ast.Expr, tok token.Token, rhs ast.Expr) {
+	if ix, isIx := ast.Unparen(lhs).(*ast.IndexExpr); isIx && tok == token.ASSIGN {
+		if m, ok := e.maps[core.ExprStr(ix.X)]; ok {
+			m[e.expr(ix.Index)] = true
+			return
+		}
+	}
 	id, isID := ast.Unparen(lhs).(*ast.Ident)
 	if !isID {
 		e.effects = append(e.effects, core.ExprStr(lhs)+" "+tok.String()+" "+core.ExprStr(rhs))
@@ -143,6 +157,18 @@ func (e *miniEval) assign(lhs ast.Expr, tok token.Token, rhs ast.Expr) {
 	}
 	if id.Name == "_" {
 		return
+	}
+	// a fresh map
+	if call, isC := ast.Unparen(rhs).(*ast.CallExpr); isC && core.ExprStr(call.Fun) == "make" && len(call.Args) >= 1 {
+		if t := core.TypeOf(e.pk, call.Args[0]); t != nil {
+			if _, isMap := t.Underlying().(*types.Map); isMap {
+				if e.maps == nil {
+					e.maps = map[string]map[int64]bool{}
+				}
+				e.maps[id.Name] = map[int64]bool{}
+				return
+			}
+		}
 	}
 	v := e.expr(rhs)
 	switch tok {
@@ -182,6 +208,26 @@ func (e *miniEval) run(stmts []ast.Stmt) (status int, rets []int64) {
 				}
 			}
 		case *ast.AssignStmt:
+			if len(s.Lhs) == 2 && len(s.Rhs) == 1 {
+				if ix, isIx := ast.Unparen(s.Rhs[0]).(*ast.IndexExpr); isIx {
+					if m, ok := e.maps[core.ExprStr(ix.X)]; ok {
+						if id, isID := s.Lhs[1].(*ast.Ident); isID && id.Name != "_" {
+							e.env[id.Name] = b2i(m[e.expr(ix.Index)])
+						}
+						break
+					}
+				}
+				if call, isC := ast.Unparen(s.Rhs[0]).(*ast.CallExpr); isC && e.tuple != nil {
+					if vals, ok := e.tuple(call); ok && len(vals) == 2 {
+						for i, l := range s.Lhs {
+							if id, isID := l.(*ast.Ident); isID && id.Name != "_" {
+								e.env[id.Name] = vals[i]
+							}
+						}
+						break
+					}
+				}
+			}
 			if len(s.Lhs) != len(s.Rhs) {
 				e.fail("tuple assignment")
 				break
@@ -213,6 +259,12 @@ func (e *miniEval) run(stmts []ast.Stmt) (status int, rets []int64) {
 				e.env[id.Name]--
 			}
 		case *ast.ExprStmt:
+			if call, isC := s.X.(*ast.CallExpr); isC && core.ExprStr(call.Fun) == "delete" && len(call.Args) == 2 {
+				if m, ok := e.maps[core.ExprStr(call.Args[0])]; ok {
+					delete(m, e.expr(call.Args[1]))
+					break
+				}
+			}
 			e.effects = append(e.effects, core.ExprStr(s.X))
 		case *ast.BlockStmt:
 			if st, r := e.run(s.List); st != miniFall {
@@ -320,6 +372,30 @@ func (e *miniEval) run(stmts []ast.Stmt) (status int, rets []int64) {
 				}
 			}
 		case *ast.RangeStmt:
+			if e.rng != nil {
+				if vals, ok := e.rng(s.X); ok {
+					stop := false
+					for i, v := range vals {
+						if id, ok := s.Key.(*ast.Ident); ok && id.Name != "_" {
+							e.env[id.Name] = int64(i)
+						}
+						if id, ok := s.Value.(*ast.Ident); ok && id.Name != "_" {
+							e.env[id.Name] = v
+						}
+						st, r := e.run(s.Body.List)
+						if st == miniReturn {
+							return st, r
+						}
+						if st == miniBreak {
+							stop = true
+						}
+						if stop || e.unknown != "" {
+							break
+						}
+					}
+					break
+				}
+			}
 			elems, ok := e.constElems(s.X)
 			if !ok {
 				e.fail("range over " + core.ExprStr(s.X))
